@@ -43,9 +43,9 @@ def prop_tree(case, walk=None, max_depth=14, max_levels=1500):
     fails, stats = steplaw.explore(model, 'Gillespie_SIS', walk=walk, max_depth=max_depth, max_levels=max_levels,
                                    observe=observe)
     classes = []
-    if case.get('ew'):
+    if case.get('ew') is not None:
         classes.append('edge-weighted')
-    if case.get('nw'):
+    if case.get('nw') is not None:
         classes.append('node-weighted')
     if case['tau'] == 0 or case['gamma'] == 0:
         classes.append('zero-rate')
